@@ -885,7 +885,7 @@ def run_batch(prop, tier, rng, cases, n_corpus):
                 if priced and d0 < priced[0] <= d1:
                     firsts.append(priced[0])
             if firsts and rng.random() < 0.6:
-                cut = max(d0 - 2, rng.choice(firsts) - rng.choice([1, 1, 2, 3]))
+                cut = max(d0 - 2, rng.choice(firsts) - rng.choice([0, 0, 1, 1, 2, 3]))     # 0: the listing day is the last known day
             cuts.append(cut)
             cases2.append(dict(c, market=cut_market(rng, c, cut)))
         reals2 = run_many(cases2)
